@@ -184,10 +184,71 @@ func builtinProbes() []builtinProbe {
 	return out
 }
 
+// HLSL writes a matCx2 struct member as C separate vectors and stores into it through helper functions
+// SetMat<m>On<S>(S obj, …): the helper can only have an effect if `obj` is an inout / out parameter.
+const matCx2Probe = `struct S { m: mat3x2<f32>, }
+@group(0) @binding(0) var<storage, read_write> st: S;
+@group(0) @binding(1) var<uniform> un: S;
+@compute @workgroup_size(1)
+fn main() {
+  var loc: S;
+  loc.m = un.m;
+  let i = u32(un.m[0].x);
+  loc.m[i] = vec2<f32>(8.0);
+  loc.m[i][1] = 9.0;
+  st = loc;
+}
+`
+
+func (c *ctx) hlslSetMatProbe() {
+	mod, _ := frontEnd(matCx2Probe)
+	if mod == nil {
+		return
+	}
+	text, _, cerr := emitCFixed("hlsl", mod, "sm=1 restrict=false loopbound=false zeroinit=true")
+	if cerr != "" {
+		return
+	}
+	unit, perr := cparse(text)
+	row := "ok | matCx2 member stores"
+	if perr != nil {
+		row = "unreadable | matCx2 member stores | " + oneLine(perr.Error())
+	} else {
+		var byValue []string
+		for _, f := range funcsOf(sparse(unit)) {
+			name := f.kids[3].atom
+			if !strings.HasPrefix(name, "SetMat") || len(f.kids[4].kids) == 0 {
+				continue
+			}
+			first := f.kids[4].kids[0]
+			quals := ""
+			if first.list && len(first.kids) > 1 {
+				for _, k := range first.kids[1].kids {
+					quals += " " + k.atom
+				}
+			}
+			if !strings.Contains(quals, "inout") && !strings.Contains(quals, " out") {
+				byValue = append(byValue, name)
+			}
+		}
+		if len(byValue) > 0 {
+			sort.Strings(byValue)
+			row = "missing inout-on-" + strings.Join(byValue, ",") + " | matCx2 member stores"
+		}
+	}
+	c.line("rows.txt", row)
+	c.line("src.txt", q(matCx2Probe))
+	c.line("text.txt", q(text))
+	c.count("probes")
+}
+
 func cmdCBuiltins(c *ctx) {
 	dialect := "hlsl"
 	if len(c.args) > 0 {
 		dialect = c.args[0]
+	}
+	if dialect == "hlsl" {
+		c.hlslSetMatProbe()
 	}
 	intr := map[string]bool{}
 	for _, w := range map[string][]string{"hlsl": hlslIntrinsics, "msl": mslIntrinsics, "glsl": glslIntrinsics}[dialect] {
